@@ -13,13 +13,13 @@
 (*   depth 2 (MaxOuter > 0) : composites of 1..MaxOuter members, each a    *)
 (*                            leaf or a depth-1 composite of 1..MaxInner   *)
 (*                            leaves, at least one member composite        *)
-(*   arity table (Arity > 0): for every n in ArityFrom..Arity, position p, *)
-(*                            and kind k: the n-tuple with kind k at       *)
-(*                            position p and Unit elsewhere                *)
+(*   arity table            : for every n in Arities (a subset of 1..26),  *)
+(*                            position p and kind k: the n-tuple with kind *)
+(*                            k at position p and Unit elsewhere           *)
 (***************************************************************************)
 EXTENDS SysData, TLC, Json
 
-CONSTANTS NRes, MaxMem, MaxOuter, MaxInner, ArityFrom, Arity, Held,
+CONSTANTS NRes, MaxMem, MaxOuter, MaxInner, Arities, Held,
           Handlers   \* 0: no custom-handler leaves, 1: included, 2: only shapes containing one
 
 Res0 == 1..NRes
@@ -44,10 +44,9 @@ ArityShape(n, p, k) ==
                                     ELSE Leaf(k, 1 + (p % NRes))])
 HasH(tb) == \E i \in DOMAIN tb : tb[i].kind \in HKinds
 Universe0 == (IF MaxMem > 0 THEN LeafTabs \cup D1(MaxMem) ELSE {}) \cup D2
-            \cup (IF Arity = 0 THEN {}
-                  ELSE UNION {{ArityShape(n, p, k) : p \in 1..n,
-                                                     k \in IF Handlers = 0 THEN AllKinds \ HKinds ELSE AllKinds}
-                                : n \in ArityFrom..Arity})
+            \cup UNION {{ArityShape(n, p, k) : p \in 1..n,
+                                                k \in IF Handlers = 0 THEN AllKinds \ HKinds ELSE AllKinds}
+                           : n \in Arities}
 Universe == IF Handlers = 2 THEN {tb \in Universe0 : HasH(tb)} ELSE Universe0
 
 WorldOf(P) == [x \in Res0 |-> IF x \in P THEN x ELSE Absent]
